@@ -187,6 +187,6 @@ int qsx_factor_commands (const char *c)
 		mpq_ILLsvector_free (&x);
 	}
 	else if (!strcmp (c, "ffree")) { f_free (); printf ("ok\n"); }
-	else return 0;
+	else { extern int qsx_lowprec_commands (const char *c); return qsx_lowprec_commands (c); }
 	return 1;
 }
